@@ -841,3 +841,137 @@ func (e *simpEnv) simp(t *Term) *Term {
 	e.memo[t] = r
 	return r
 }
+
+// DNF expands a boolean term (and/or nesting over arbitrary atoms) into at most max conjunctions;
+// returns nil if the expansion would exceed max.
+func (c *TermCtx) DNF(t *Term, max int) []*Term {
+	var rec func(t *Term) [][]*Term
+	overflow := false
+	rec = func(t *Term) [][]*Term {
+		if overflow {
+			return nil
+		}
+		switch t.op {
+		case "or":
+			var out [][]*Term
+			for _, a := range t.args {
+				out = append(out, rec(a)...)
+				if len(out) > max {
+					overflow = true
+					return nil
+				}
+			}
+			return out
+		case "and":
+			out := [][]*Term{{}}
+			for _, a := range t.args {
+				sub := rec(a)
+				if overflow {
+					return nil
+				}
+				var next [][]*Term
+				for _, o := range out {
+					for _, s := range sub {
+						n := append(append([]*Term{}, o...), s...)
+						next = append(next, n)
+						if len(next) > max {
+							overflow = true
+							return nil
+						}
+					}
+				}
+				out = next
+			}
+			return out
+		}
+		return [][]*Term{{t}}
+	}
+	cs := rec(t)
+	if overflow || cs == nil {
+		return nil
+	}
+	var res []*Term
+	for _, conj := range cs {
+		a := c.And(conj...)
+		if !a.isFalse() {
+			res = append(res, a)
+		}
+	}
+	return res
+}
+
+// symsOf returns the free symbols / uninterpreted function names of a term (memoised).
+func (c *TermCtx) symsOf(t *Term, memo map[*Term]map[string]bool) map[string]bool {
+	if m, ok := memo[t]; ok {
+		return m
+	}
+	m := map[string]bool{}
+	switch {
+	case t.op == "sym":
+		m[t.name] = true
+	case strings.HasPrefix(t.op, "uf:"):
+		m[t.op] = true
+	}
+	for _, a := range t.args {
+		for k := range c.symsOf(a, memo) {
+			m[k] = true
+		}
+	}
+	memo[t] = m
+	return m
+}
+
+// SplitCases refines a path condition into at most max cases by repeatedly splitting a case on one of
+// its disjunctive conjuncts (largest first).  The disjunction of the cases is equivalent to t.
+func (c *TermCtx) SplitCases(t *Term, max int) []*Term {
+	flatten := func(t *Term) []*Term {
+		if t.op == "and" {
+			return t.args
+		}
+		return []*Term{t}
+	}
+	cases := [][]*Term{flatten(t)}
+	for len(cases) < max {
+		// pick the case and conjunct to split: the first `or` conjunct (prefer shallow, earlier path decisions)
+		ci, ji := -1, -1
+		for i, cs := range cases {
+			for j, a := range cs {
+				if a.op == "or" {
+					ci, ji = i, j
+					break
+				}
+			}
+			if ci >= 0 {
+				break
+			}
+		}
+		if ci < 0 {
+			break
+		}
+		cs := cases[ci]
+		or := cs[ji]
+		if len(cases)-1+len(or.args) > max {
+			// cannot split this one within budget: mark by moving on (replace with a non-or wrapper is not possible); stop
+			break
+		}
+		rest := append(append([]*Term{}, cs[:ji]...), cs[ji+1:]...)
+		var repl [][]*Term
+		for _, d := range or.args {
+			n := append(append([]*Term{}, rest...), flatten(d)...)
+			a := c.And(n...)
+			if a.isFalse() {
+				continue
+			}
+			repl = append(repl, flatten(a))
+		}
+		cases = append(append(append([][]*Term{}, cases[:ci]...), repl...), cases[ci+1:]...)
+	}
+	var out []*Term
+	for _, cs := range cases {
+		a := c.And(cs...)
+		if !a.isFalse() {
+			out = append(out, a)
+		}
+	}
+	return out
+}
